@@ -41,7 +41,7 @@ fn budget(prop: &str, tier: &str) -> u64 {
         "C16" => 4000,
         "C17" => 4000,
         "C18" => 5000,
-        "C19" => 3000,
+        "C19" => 3000 + crate::c19::SERVICE_ENUM,
         "C20" => 4000,
         _ => 1000,
     };
@@ -821,7 +821,8 @@ pub fn check_main(args: &[String]) -> i32 {
         let n = if tier == "thorough" { 1500 } else { 160 };
         // spread over the whole range of this check's cases
         let n = n.min(total);
-        let sw = crate::fidelity::sweep(&prop, seed, n, (total / n.max(1)).max(1), nw as usize, &scratch_dir);
+        let first = if prop == "C19" { crate::c19::SERVICE_ENUM } else { 0 };
+        let sw = crate::fidelity::sweep(&prop, seed, n, (total / n.max(1)).max(1), nw as usize, &scratch_dir, first);
         // in C19 a disagreement is explained when the simulation itself has found that the output
         // depends on the environment (the real binary runs in yet another environment)
         let explained = prop == "C19" && viols.iter().any(|v| v.class.contains("env_dependent") || v.class.contains("history_dependent"));
